@@ -999,15 +999,18 @@ fn case_tree(bytes: &[u8], ctx: &mut Ctx) -> CaseResult {
         Some((b, r)) => (Some(b), r),
         None => (None, 0),
     };
-    if let (Some(ms), Some(own_br)) = (&model_ser, &own_br) {
-        // harness-side sanity of the harness' own back-reference serialiser:
-        // clvmr's deserialiser must read it back as the same tree
-        if ms.len() <= 4096 || s.chance(16) {
+    if let Some(own_br) = &own_br {
+        // harness-side sanity of the harness' own back-reference serialiser
+        // (nothing of clvm-utils involved): clvmr's deserialiser must read it
+        // back as a tree whose hash by clvmr's own ObjectCache/treehash is the
+        // definition's. A failure here is a harness bug, not a finding.
+        if own_refs > 0 && (t.nodes.len() <= 300 || s.chance(16)) {
             let mut a2 = Allocator::new();
             let n2 = clvmr::serde::node_from_bytes_backrefs(&mut a2, own_br)
                 .expect("harness: own back-reference serialisation does not parse");
-            let back = node_to_bytes_limit(&a2, n2, 1 << 30).expect("node_to_bytes");
-            assert!(back == *ms, "harness: own back-reference serialisation decodes to a different tree");
+            let mut oc = clvmr::serde::ObjectCache::new(clvmr::serde::treehash);
+            let h2 = oc.get_or_calculate(&a2, &n2, None).expect("clvmr treehash");
+            assert!(h2[..] == want[..], "harness: own back-reference serialisation decodes to a different tree");
         }
     }
     let opts = RoutineOpts {
